@@ -57,10 +57,10 @@ def embed(rng, pts2, planar_only=False):
     return W, nz, "3d"
 
 
-def observe(V, normal):
+def observe(V, normal, cls="Polygon"):
     import coxeter
 
-    p = coxeter.shapes.Polygon(V, normal=None if normal is None else normal.copy())
+    p = getattr(coxeter.shapes, cls)(V, normal=None if normal is None else normal.copy())
     o = dict(normal=np.array(p.normal, float), area=float(p.area), signed_area=float(p.signed_area),
              perimeter=float(p.perimeter), centroid=np.array(p.centroid, float),
              polar=float(p.polar_moment_inertia), inertia=np.array(p.inertia_tensor, float),
@@ -109,6 +109,14 @@ def run(chk):
                     if emb == "xy":
                         cases.append(C.encode_case("polygon_planar", qs=C.flat(V)))
                     meta.append(dict(kind=kind, var=var, V=V, normal=normal, nmode=nmode, emb=emb, o=o, i0=i0))
+                    # the convex class on the same input (it re-orders the vertices counter-clockwise about the normal it is given or
+                    # finds): same measures, positive signed area, the requested normal
+                    if kind == "convex" and rng.random() < 0.5:
+                        st2, o2 = C.excname(observe, V, normal, "ConvexPolygon")
+                        if st2 != "ok":
+                            chk.violation("constructor-raised", dict(kind=kind, cls="ConvexPolygon", vertices=V.tolist(), normal=None if normal is None else normal.tolist(), error=st2))
+                        else:
+                            meta.append(dict(kind=kind, var=var, V=V, normal=normal, nmode=nmode, emb=emb, o=o2, i0=i0, cls="ConvexPolygon"))
     res = C.run_model(cases)
     nvm, okvm = C.vm_crosscheck(cases[:8], res[:8], "C04", limit=8)
     if not okvm:
@@ -124,6 +132,16 @@ def run(chk):
         desc = dict(kind=m["kind"], orient=m["var"]["orient"], shift=m["var"]["shift"], normal_mode=m["nmode"], emb=m["emb"],
                     vertices=V.tolist(), normal=None if m["normal"] is None else m["normal"].tolist())
         nhat = ex["N"] / np.sqrt(ex["NN"])
+        convex_cls = m.get("cls") == "ConvexPolygon"
+        if convex_cls:
+            desc["cls"] = "ConvexPolygon"
+            chk.count("cls:ConvexPolygon")
+            if m["normal"] is None and ex["sa_spec"] < 0:
+                nhat = -nhat          # (its own normal: the one about which the re-ordered vertices run counter-clockwise is either sign's partner)
+            if m["normal"] is None and not (C.close(o["normal"], nhat, 1e-9) or C.close(o["normal"], -nhat, 1e-9)):
+                chk.violation("normal", dict(desc, impl=o["normal"].tolist(), exact=nhat.tolist())); continue
+            if m["normal"] is None:
+                nhat = np.array(o["normal"], float)
         if not C.close(o["normal"], nhat, 1e-9):
             chk.violation("normal", dict(desc, impl=o["normal"].tolist(), exact=nhat.tolist()))
             continue
@@ -134,7 +152,7 @@ def run(chk):
             chk.violation(name, dict(desc, impl=np.asarray(impl).tolist(), exact=np.asarray(exact).tolist(), tol=RTOL * scale))
             return False
 
-        cmp("signed_area", o["signed_area"], ex["sa_spec"], R ** 2)
+        cmp("signed_area", o["signed_area"], abs(ex["sa_spec"]) if convex_cls else ex["sa_spec"], R ** 2)
         cmp("area", o["area"], abs(ex["sa_spec"]), R ** 2)
         cmp("perimeter", o["perimeter"], ex["perimeter"], R * len(V))
         A = abs(ex["sa_spec"])
@@ -142,7 +160,7 @@ def run(chk):
         c = ex["cen_spec"]
         Iexact = ex["Jc_spec"] * np.outer(nhat, nhat) + A * (c @ c * np.eye(3) - np.outer(c, c))
         cmp("inertia_tensor", o["inertia"], Iexact, R ** 4)
-        if m["emb"] == "xy" and m["nmode"] != "minus" and abs(nhat[2] - 1) < 1e-12:
+        if m["emb"] == "xy" and m["nmode"] != "minus" and abs(nhat[2] - 1) < 1e-12 and (not convex_cls or ex["sa_spec"] > 0 or m["nmode"] == "plus"):
             pm = res[m["i0"] + 1]
             spec = [C.fl(x) for x in pm[6:9]]
             cmp("planar_moments_inertia", o["planar"], spec, R ** 4)
